@@ -184,6 +184,8 @@ def rule_modify(rep, rule="M-modify"):
 
     def f(I_, v):
         calls.append(v)
+        if isinstance(v, Lin) and v.const == 101:
+            return Lin.num(0)  # a function may well return zero (falsy): the result is still the new value
         return Tup(["f", v])
     try:
         sub = idx.cls("KlattSubPointTier")
@@ -217,7 +219,10 @@ def rule_modify(rep, rule="M-modify"):
                 tv, vv = I.iterate(e)
                 if not (isinstance(tv, Lin) and tv.same(times[i])):
                     problems.append("%s time %d changed" % (n, i))
-                if touched:
+                if touched and base + i == 101:
+                    if not (isinstance(vv, Lin) and vv.const == 0):
+                        problems.append("%s value %d is %r, expected f(101) = 0 (a zero result must not be discarded)" % (n, i, vv))
+                elif touched:
                     if not (isinstance(vv, Tup) and vv.items[0] == "f" and isinstance(vv.items[1], Lin) and vv.items[1].const == base + i):
                         problems.append("%s value %d is %r, expected f(%d)" % (n, i, vv, base + i))
                 elif not (isinstance(vv, Lin) and vv.const == base + i):
@@ -257,7 +262,7 @@ def rule_point_object_layout(rep, tier, rule="P-layout"):
         what = "%s %s with %d point(s)" % (cname, oclass, len(pts))
         I = Interp(idx, st, overrides=default_overrides())
         try:
-            obj = I.instantiate(idx.cls(cname), [Lst([Tup([Lin.num(x) for x in p_]) for p_ in pts]), oclass, Lin.num(0), Lin.num(F(7, 4))], {})
+            obj = I.instantiate(idx.cls(cname), [Lst([Tup([Lin.num(x) for x in p_]) for p_ in pts]), oclass, Lin.num(F(1, 8)), Lin.num(F(7, 4))], {})
             I.call_value(I.getattr(obj, "save"), ["out.txt"], {})
             back = I.call_function(rd, ["out.txt"], {})
         except PyRaise as e:
@@ -273,13 +278,46 @@ def rule_point_object_layout(rep, tier, rule="P-layout"):
             if I.getattr(back, "objectClass") != oclass:
                 problems.append("class %r" % (I.getattr(back, "objectClass"),))
             lo, hi = I.getattr(back, "minTime"), I.getattr(back, "maxTime")
-            if not (isinstance(lo, Lin) and lo.const == 0 and isinstance(hi, Lin) and hi.const == F(7, 4)):
-                problems.append("span (%r, %r), expected (0, 1.75)" % (lo, hi))
+            if not (isinstance(lo, Lin) and lo.const == F(1, 8) and isinstance(hi, Lin) and hi.const == F(7, 4)):
+                problems.append("span (%r, %r), expected (0.125, 1.75)" % (lo, hi))
             got = [[x.const if isinstance(x, Lin) else x for x in I.iterate(row)] for row in I.iterate(I.getattr(back, "pointList"))]
             if got != [list(p_) for p_ in pts]:
                 problems.append("points %s, expected %s" % (got, [list(p_) for p_ in pts]))
         rep.check(not problems, rule, sv.short + " / " + rd.short, what, ok="class, span and every point come back", bad="; ".join(problems))
-    rep.floor(rule, 4)
+    # long ("normal") text form, as Praat itself writes it (transcribed from the manual; praatio only reads it)
+    LONG = {
+        "open2DPointObject": ('File type = "ooTextFile"\nObject class = "PitchTier"\n\nxmin = 0.125 \nxmax = 1.75 \npoints: size = 2 \npoints [1]:\n    number = 0.25 \n    value = 120 \npoints [2]:\n    number = 1.5 \n    value = 2.5 \n',
+                              "PitchTier", [[F(1, 4), F(120)], [F(3, 2), F(5, 2)]]),
+        "open1DPointObject": ('File type = "ooTextFile"\nObject class = "PointProcess"\n\nxmin = 0.125 \nxmax = 1.75 \nnt = 2 \nt []: \n    t [1] = 0.25 \n    t [2] = 0.875 \n',
+                              "PointProcess", [[F(1, 4)], [F(7, 8)]]),
+    }
+    for opener, (text, oclass, pts) in LONG.items():
+        rd = idx.get("data_points:" + opener)
+        what = "long-format %s exemplar with %d point(s)" % (oclass, len(pts))
+        I = Interp(idx, st, overrides=default_overrides())
+        I.__dict__.setdefault("vfs", {})["in.txt"] = text
+        try:
+            back = I.call_function(rd, ["in.txt"], {})
+        except PyRaise as e:
+            rep.refuted(rule, rd.short, what, "reading Praat's long text form raises %s" % e.name)
+            continue
+        except Undecided as e:
+            rep.undecided(rule, rd.short, what, str(e))
+            continue
+        problems = []
+        if not isinstance(back, ObjVal):
+            problems.append("reader returned %r" % (back,))
+        else:
+            if I.getattr(back, "objectClass") != oclass:
+                problems.append("class %r" % (I.getattr(back, "objectClass"),))
+            lo, hi = I.getattr(back, "minTime"), I.getattr(back, "maxTime")
+            if not (isinstance(lo, Lin) and lo.const == F(1, 8) and isinstance(hi, Lin) and hi.const == F(7, 4)):
+                problems.append("span (%r, %r), expected (0.125, 1.75)" % (lo, hi))
+            got = [[x.const if isinstance(x, Lin) else x for x in I.iterate(row)] for row in I.iterate(I.getattr(back, "pointList"))]
+            if got != pts:
+                problems.append("points %s, expected %s" % (got, pts))
+        rep.check(not problems, rule, rd.short, what, ok="class, span and every point are read from Praat's long text form", bad="; ".join(problems))
+    rep.floor(rule, 6)
 
 
 def run(rep, tier):
